@@ -218,3 +218,5 @@ func envRootOf(size uint64, hash []byte, ts uint64) *trillian.SignedLogRoot {
 	vAssume(err == nil)
 	return &trillian.SignedLogRoot{LogRoot: b}
 }
+
+func envMetricFactory() monitoring.MetricFactory { return monitoring.InertMetricFactory{} }
